@@ -6,6 +6,16 @@ void harness(void) {
   VK_INIT_ALL();
   uint8_t* in = h_exact(I.in, N);
   for (unsigned i = 0; i < N; i++) ASSUME(in[i] != '.');
+#ifdef DIGCLASS
+  /* class-restricted variant (still ALL strings of the class): 1 = decimal digits, 2 = "0x" + hex digits, 3 = '0' + octal digits.
+     These are the overflow-boundary cases (10 decimal / 8 hex / 11 octal significant digits). */
+  for (unsigned i = 0; i < N; i++) {
+    uint8_t c = in[i];
+    if (DIGCLASS == 1) ASSUME(c >= '0' && c <= '9');
+    if (DIGCLASS == 2) ASSUME(i == 0 ? c == '0' : i == 1 ? (c == 'x' || c == 'X') : ((c >= '0' && c <= '9') || ((c | 0x20) >= 'a' && (c | 0x20) <= 'f')));
+    if (DIGCLASS == 3) ASSUME(i == 0 ? c == '0' : (c >= '0' && c <= '7'));
+  }
+#endif
   uint8_t out[9] = {0};
   uint64_t r = KERNEL(in, N, out, 9, 0, 0);
   int ok = r & 1; uint64_t consumed = r >> 8;
